@@ -954,6 +954,9 @@ pub fn tx_from_slate_v4(slate: &SlateV4) -> Option<Transaction> {
 	let secp = secp.lock();
 	let mut calc_slate = Slate::blank(2, false);
 	calc_slate.fee_fields = slate.fee;
+	// the partial signatures commit to the kernel features
+	calc_slate.kernel_features = slate.feat;
+	calc_slate.kernel_features_args = slate.feat_args.as_ref().map(KernelFeaturesArgs::from);
 	for d in slate.sigs.iter() {
 		calc_slate.participant_data.push(ParticipantData {
 			public_blind_excess: d.xs,
@@ -970,14 +973,18 @@ pub fn tx_from_slate_v4(slate: &SlateV4) -> Option<Transaction> {
 		Err(_) => Signature::from_raw_data(&[0; 64]).unwrap(),
 	};
 	let kernel = TxKernel {
-		features: match slate.feat {
-			0 => KernelFeatures::Plain { fee: slate.fee },
-			1 => KernelFeatures::HeightLocked {
+		// same mapping as Slate::kernel_features
+		features: match (slate.feat, slate.feat_args.as_ref()) {
+			(2, Some(a)) => KernelFeatures::HeightLocked {
 				fee: slate.fee,
-				lock_height: match slate.feat_args.as_ref() {
-					Some(a) => a.lock_hgt,
-					None => 0,
+				lock_height: a.lock_hgt,
+			},
+			(3, Some(a)) => match NRDRelativeHeight::new(a.lock_hgt) {
+				Ok(h) => KernelFeatures::NoRecentDuplicate {
+					fee: slate.fee,
+					relative_height: h,
 				},
+				Err(_) => KernelFeatures::Plain { fee: slate.fee },
 			},
 			_ => KernelFeatures::Plain { fee: slate.fee },
 		},
